@@ -423,6 +423,7 @@ impl<B: Buffer> History<B> {
 //@     es2 = es1.skip(evict_count(es1, room));
 //@ }
 //@ let ghost b1 = self.buffer.bytes();
+
                 if removing < self.used {
                     self.buffer
                         .as_slice_mut()
